@@ -23,6 +23,8 @@ DECLS = """use foreign.echo {
     double d4_2(double a, double b, double c, double d);
     double d4_3(double a, double b, double c, double d);
     double di(int a);
+    double conv(double a);
+    int only1(int a);
     int i0();
     int i1(int a);
     int i2_0(int a, int b);
@@ -90,6 +92,13 @@ def cases():
     out.append(("nested through a Cb function", DECLS + "int twice_i(int v) { return echo.i1(v) + echo.i1(v); }\ndouble keep_d(double v) { return d1(v); }\nint main() {\n"
                 "    println(echo.i2_0(1, twice_i(4)), echo.i2_1(1, twice_i(4)));\n    double b = echo.d2_1(1.0, keep_d(4.5));\n    println(b == 4.5);\n    println(\"END\");\n    return 0;\n}\n",
                 "1 8\n1\nEND\n", "ok", None))
+    # two foreign modules that define functions of the same name: a qualified call reaches the library it names
+    TWO = DECLS + "use foreign.echo2 {\n    int i1(int a);\n    double d1(double a);\n    int i2_0(int a, int b);\n    int only2(int a);\n    int conv(int a);\n    void vi(int a);\n    int getseen();\n}\n"
+    out.append(("two modules same names", TWO + "int main() {\n    println(echo.i1(5), echo2.i1(5), echo.i1(6), echo2.i1(6));\n    double a = echo.d1(1.5);\n    double b = echo2.d1(1.5);\n"
+                "    println(a == 1.5, b == 3.0);\n    println(echo.i2_0(1, 2), echo2.i2_0(1, 2));\n    echo.vi(10);\n    echo2.vi(20);\n    println(echo.getseen(), echo2.getseen());\n"
+                "    double c = echo.conv(6.0);\n    println(c == 6.5, echo2.conv(6), echo2.only2(4), echo.only1(4));\n    println(\"END\");\n    return 0;\n}\n",
+                "5 1005 6 1006\n1 1\n1 9\n10 21\n1 42 12 20\nEND\n", "ok", None))
+    out.append(("function of the other module", TWO + "int main() {\n    println(\"before\");\n    println(echo2.only1(1));\n    println(\"after\");\n    return 0;\n}\n", None, "error", None))
     # unsupported signatures: a diagnostic and a non-zero exit, and the native function must not have run
     for name, call in [("u_iii", "echo.u_iii(1, 2, 3)"), ("u_ddd", "echo.u_ddd(1.5, 2.5, 3.5)"), ("u_ll", "echo.u_ll(5)"),
                        ("u_id", "echo.u_id(1.5)"), ("u_ff", "echo.u_ff(1.5)"), ("u_dl", "echo.u_dl(5)"), ("u_l0", "echo.u_l0()"),
@@ -116,6 +125,8 @@ def main(a):
     libdir = os.path.join(d, "ffi_stdlib", "foreign")
     os.makedirs(libdir, exist_ok=True)
     r = common.run(["gcc", "-shared", "-fPIC", "-O1", "-o", os.path.join(libdir, "libecho.so"), os.path.join(common.HARNESS, "echo.c")])
+    if r.returncode == 0:
+        r = common.run(["gcc", "-shared", "-fPIC", "-O1", "-o", os.path.join(libdir, "libecho2.so"), os.path.join(common.HARNESS, "echo2.c")])
     if r.returncode != 0:
         v.violation("cannot build the echo library: " + r.stdout[-400:], {"log": r.stdout[-2000:]}, no_input=True)
         return v.finish()
